@@ -122,6 +122,9 @@ def generate(seed, tier, idx=0):
                       [m for m in maps if m and m.rpartition(".")[0] == parent]
                 if sib:
                     key = rng.choice(sib).rpartition(".")[2]
+            elif rng.random() < 0.12 and params:
+                # the key of a parameter that lives in another map (legal there)
+                key = rng.choice(params)[0].rpartition(".")[2]
             spec = gen_spec(rng, kind)
             bad = None
             if rng.random() < 0.15:
@@ -158,6 +161,21 @@ def generate(seed, tier, idx=0):
             ops.append(["remove", ".".join(parts[:cut]), ".".join(parts[cut:])])
             params = [x for x in params if not (x[0] == path or x[0].startswith(path + "."))]
             maps = [m for m in maps if not (m == path or m.startswith(path + "."))]
+        elif r < 0.93 and params and len(maps) > 1:
+            # an attached parameter offered to another map that already holds a
+            # different parameter with that key: refused, nothing may change
+            pairs = []
+            for path, kind, spec in params:
+                par, _, key = path.rpartition(".")
+                for m in maps:
+                    if m != par and any(p2 == (m + "." if m else "") + key
+                                        for p2, _, _ in params):
+                        pairs.append((path, m))
+            if pairs:
+                path, m = rng.choice(pairs)
+                ops.append(["readd", path, m])
+            else:
+                ops.append(["check"])
         else:
             ops.append(["check"])
     return {"ops": ops}
@@ -347,7 +365,10 @@ def run(case):
                     obj = build(kind, spec, key, prio, ro, parent.obj)
                 else:
                     obj = build(kind, spec, key, prio, ro, None)
-                    parent.obj.add(obj)
+                    if parent is root and i % 2 == 0:
+                        model.add_parameter(obj)       # the model-level way to add
+                    else:
+                        parent.obj.add(obj)
                 ok = True
             except (TypeError, ValueError):
                 ok = False
@@ -449,6 +470,31 @@ def run(case):
                 return ("remove", "op #%d: remove(%r) returned %r" % (i, rel, got)), info
             owner = b.find(rel.rpartition(".")[0]) if "." in rel else b
             owner.children = [c for c in owner.children if c is not target]
+        elif name == "readd":
+            _, path, mpath = op
+            node = root.find(path)
+            target = root.find(mpath)
+            if node is None or target is None or target.kind != "map" or node.kind == "map":
+                continue
+            other = next((c for c in target.children if c.key == node.key), None)
+            if other is None or other is node:
+                continue
+            try:
+                target.obj.add(node.obj)
+                return ("invalid-construction-accepted", "op #%d: map %r accepted a second "
+                        "parameter with the key %r" % (i, mpath or "root", node.key)), info
+            except (TypeError, ValueError):
+                info["rejected"] += 1
+            try:
+                got = rootobj.get(path)
+            except Exception as e:
+                return ("lookup", "op #%d: after map %r refused parameter %s (duplicate key) "
+                        "get(%r) on the root raised %s" % (i, mpath or "root", path, path,
+                                                           type(e).__name__)), info
+            if got is not node.obj or node.obj.extended_key() != "root." + path:
+                return ("lookup", "op #%d: after map %r refused parameter %s (duplicate key) "
+                        "the parameter reports the extended key %r"
+                        % (i, mpath or "root", path, node.obj.extended_key())), info
         m = compare_tree(root, rootobj)
         if m:
             return ("tree-state", "after op #%d %s: %s" % (i, op[:4], m)), info
